@@ -683,7 +683,9 @@ pub fn pfb_fci_value(fb: &PayloadFeedback) -> Result<Value, Failure> {
                         let (d, i) = r.bit_string();
                         (d.to_vec(), i)
                     })?;
-                    match bits_of(&data, ignored) {
+                    // documented: "how many bits to remove from the last byte" - more than a byte's worth is
+                    // not a bit count of the last byte, whatever the bytes before it hold
+                    match bits_of(&data, ignored).filter(|_| ignored <= 8) {
                         Some(bits) => Ok(json!({ "rpsi": { "pt": pt, "bits": bits_string(&bits) } })),
                         None => Ok(json!({ "rpsi": { "pt": pt, "bad_bit_string": [hex(&data), ignored] } })),
                     }
